@@ -18,6 +18,13 @@ def model_docs(tier: str, seed: int, run: Run) -> list[dict]:
         res = tlc.must_ok(tlc.run("Canon", cfg, workers=1, timeout=7200, heap="8g"), "Canon")
         return {"printed": res.printed, "generated": res.generated, "distinct": res.distinct}
     d = tlc.cached(f"canon-{cfg}-{dig}", ex)
+    if tier == "thorough":
+        # two-part documents without let-gap trivia (exhaustive) + every one-part document with it (the quick model)
+        def exq():
+            res = tlc.must_ok(tlc.run("Canon", "Canon_quick.cfg", workers=1, timeout=7200, heap="8g"), "Canon")
+            return {"printed": res.printed, "generated": res.generated, "distinct": res.distinct}
+        dq = tlc.cached(f"canon-Canon_quick.cfg-{dig}", exq)
+        d = {"printed": d["printed"] + dq["printed"], "generated": d["generated"] + dq["generated"], "distinct": d["distinct"] + dq["distinct"]}
     nsim = 300 if tier == "quick" else 3000
 
     def sim():
